@@ -399,9 +399,9 @@ PROPS["C13"] = {
     "rule": ("bounded-progress form: for a tick that returned running == true, once every background run spawned so far has passed its single notification decision point, a notify with a "
              "stamp later than the tick's begin must exist. Directed: all 11 orderings of {worker: read flag, unlock} against {tick: clear, try-lock, re-arm, continue/return} (including the worker holding the lock for a while after its decision) are forced with pause hooks "
              "and timeout 0 (empty and non-empty pattern run paths); random: an event loop that ticks only when notified, injector threads, seeded delays, timeouts 0-5 ms; injector clause: "
-             "inside notify on a thread that is inside push/extend the items of that call are visible. distinct_nontrivial = schedules / event loops run"),
+             "inside notify on a thread that is inside push/extend the items of that call are visible; same-count runs: a run over a new stream (or after a late publication) whose result has exactly as many matches as the previous one must still notify. distinct_nontrivial = schedules / event loops run"),
     "require": {"any": {"c13.schedules-judged": 200, "c13.ordering[C R L U A]": 10, "c13.ordering[C L R A U]": 10, "c13.ordering[R C L A U]": 10, "c13.ordering[C L A return R U]": 10, "c13.ordering[C R L A (tick goes on, worker held) U]": 10, "c13.ordering[R C L A (tick goes on, worker held) U]": 10,
-                         "c13.event-loops": 20, "c13.injector-notifies-checked": 500}},
+                         "c13.event-loops": 20, "c13.injector-notifies-checked": 500, "c13.same-count.variant0.running=true": 3}},
     "assumptions": ["an unbounded 'eventually' is not decidable on a finite run: the verdict is taken when no run is pending any more (final, not a timeout)"],
 }
 
